@@ -75,6 +75,24 @@ def scalar_alias_candidates(info):
     return res
 
 
+def reg_alias_candidates(info):
+    """[(o, k)]: parameter o is an OUTPUT register passed by reference (`__m256i &`, `__m512i &`, mode out) and parameter k an
+    INPUT register of the same type passed by const reference.  The implementation-side dispatcher gets a variant
+    `<op>__ra<o>_<k>` that passes ONE object for both (`f(x, x, b)`: the in-place call pattern the library itself uses, e.g.
+    `add_avx512_b_c(st0, st0, c0)`); on the wire and in the model it is the same request as `<op>` (value semantics: Driver.Main
+    strips the suffix), so a kernel that writes its output reference before it has read that input shows up as model != code."""
+    cps = [c for c in info.decl.get("inner", []) if c.get("kind") == "ParmVarDecl"]
+    res = []
+    for o, (q, pd) in enumerate(zip(info.params, cps)):
+        t = pd["type"]["qualType"].strip()
+        if q["cat"] in ("v4", "v8") and q["mode"] == "out" and t.endswith("&") and "const" not in t:
+            for k, (q2, pd2) in enumerate(zip(info.params, cps)):
+                t2 = pd2["type"]["qualType"].strip()
+                if k != o and q2["cat"] == q["cat"] and q2["mode"] == "in" and t2.endswith("&"):
+                    res.append((o, k))
+    return res
+
+
 def lean_dispatch_entry(info, ns, vregs=None, ext=False, opname=None, alias=None):
     """one match arm for Driver/GenDispatch.lean, or None when the signature is not dispatchable.
     vregs: number of registers a vector-region parameter (`__m256i *`, `Element_avx &`) designates in this module
@@ -248,7 +266,7 @@ def cpp_fn_pointer_type(fty):
     return "%s (*)%s" % (ret, params)
 
 
-def cpp_dispatch_entry(info, vregs=None, ext=False, opname=None, alias=None):
+def cpp_dispatch_entry(info, vregs=None, ext=False, opname=None, alias=None, ralias=None):
     opname = opname or info.lean_name
     d = info.decl
     cls = d.get("_class")
@@ -337,7 +355,9 @@ def cpp_dispatch_entry(info, vregs=None, ext=False, opname=None, alias=None):
             ty = "__m256i" if c == "v4" else "__m512i"
             ld = "_mm256_loadu_si256((__m256i*)" if c == "v4" else "_mm512_loadu_si512((void*)"
             st = "_mm256_storeu_si256((__m256i*)" if c == "v4" else "_mm512_storeu_si512((void*)"
-            if mode == "out":
+            if ralias and idx == ralias[0]:
+                v = "a%d" % ralias[1]           # the output register IS the input register a<k> (declared below, before the call)
+            elif mode == "out":
                 lines.append("    %s %s; { uint64_t t[%d]; for (int i=0;i<%d;i++) t[i]=0xDEADBEEFDEADBEEFULL; %s = %st); }" % (ty, v, n, n, v, ld))
             else:
                 lines.append("    %s %s; { uint64_t t[%d]; for (int i=0;i<%d;i++) t[i]=A.w(); %s = %st); }" % (ty, v, n, n, v, ld))
@@ -565,6 +585,13 @@ def main():
                     else:
                         lean_arms.append(la)
                     cpp_arms.append(ca)
+                    if m.get("reg_alias"):
+                        for (ro, rk) in reg_alias_candidates(info):
+                            on2 = "%s__ra%d_%d" % (opname, ro, rk)
+                            ca2 = cpp_dispatch_entry(info, m.get("vregion_regs"), False, on2, ralias=(ro, rk))
+                            if ca2:
+                                cpp_arms.append(ca2)
+                                status.setdefault("reg_alias", {}).setdefault(opname, []).append(on2)
                     if m.get("scalar_alias") and not isinstance(la, tuple):
                         for (ak, ao) in scalar_alias_candidates(info):
                             on2 = "%s__as%d" % (opname, ak)
